@@ -646,6 +646,12 @@ func ParseFile(path string, pkgPath string) (*File, error) {
 						return nil, fail(err)
 					}
 					ls.Invariants = append(ls.Invariants, cl)
+				case "assumes":
+					cl, err := parseClause(parts[2], ln.pos)
+					if err != nil {
+						return nil, fail(err)
+					}
+					ls.Assumes = append(ls.Assumes, cl)
 				case "decreases":
 					cl, err := parseClause(parts[2], ln.pos)
 					if err != nil {
